@@ -5,15 +5,15 @@ WT=$1; OUT=$2
 export GOFLAGS=-mod=mod GOPROXY=off GOSUMDB=off GOTOOLCHAIN=local
 cd $WT || exit 2
 DEMOS=$(git status --porcelain | grep '^??' | awk '{print $2}')
-mkdir -p /tmp/mutaside5/$(basename $WT)
-for d in $DEMOS; do mkdir -p /tmp/mutaside5/$(basename $WT)/$(dirname $d); mv $d /tmp/mutaside5/$(basename $WT)/$d; done
+mkdir -p /tmp/mutaside6/$(basename $WT)
+for d in $DEMOS; do mkdir -p /tmp/mutaside6/$(basename $WT)/$(dirname $d); mv $d /tmp/mutaside6/$(basename $WT)/$d; done
 git diff > $OUT/patch.verified.diff
 go build ./... > $OUT/v_build.txt 2>&1 || { echo "BUILD FAILS"; }
 VERIF_REPO=$WT python3 /verif/tools/baseline.py > $OUT/v_suite.txt 2>&1; S=$?
-for d in $DEMOS; do mv /tmp/mutaside5/$(basename $WT)/$d $d; done
+for d in $DEMOS; do mv /tmp/mutaside6/$(basename $WT)/$d $d; done
 PK=$(for d in $DEMOS; do echo ./$(dirname $d)/; done | sort -u | tr '\n' ' ')
 go test -vet=off -count=1 -run 'Demo|C[0-9][0-9]' $PK > $OUT/v_demo_with.txt 2>&1; W=$?
-git diff > /tmp/mutaside5/$(basename $WT).diff; git apply -R /tmp/mutaside5/$(basename $WT).diff
+git diff > /tmp/mutaside6/$(basename $WT).diff; git apply -R /tmp/mutaside6/$(basename $WT).diff
 go test -vet=off -count=1 -run 'Demo|C[0-9][0-9]' $PK > $OUT/v_demo_without.txt 2>&1; WO=$?
-git apply /tmp/mutaside5/$(basename $WT).diff
+git apply /tmp/mutaside6/$(basename $WT).diff
 echo "$(basename $WT): suite_rc=$S demo_with_rc=$W demo_without_rc=$WO demos=[$DEMOS] pk=[$PK]"
